@@ -1,0 +1,8 @@
+//go:build verif
+
+package client
+
+// VerifSendToKDC exposes sendToKDC to the verification harness (build tag verif only).
+func (cl *Client) VerifSendToKDC(b []byte, realm string) ([]byte, error) {
+	return cl.sendToKDC(b, realm)
+}
